@@ -1,10 +1,11 @@
 package main
 
-// The excluded point of the size cap of theorem C02_refines_spec on the real code: one compressed
-// meta-block with a single insert-and-copy block type and MORE than 2^24 commands.
-// RFC 7932 gives a single-type block category a block count of 16777216 and no block-switch code;
-// the Lean specification fails when that count is used up; brotli.Reader (typeLen = -1) does not
-// count at all. What does libbrotlidec do?
+// Finding D14 (C02), repaired in /repo a4683a3; kept as a regression on every run. One compressed
+// meta-block with a single insert-and-copy block type and MORE than 2^24 commands: RFC 7932 gives a
+// single-type block category a block count of 16777216 and no block-switch code; the Lean
+// specification fails when that count is used up and libbrotlidec never completes such a stream;
+// before the repair brotli.Reader (typeLen = -1) did not count at all and accepted it. (It was the
+// excluded point of the size cap the first proof of C02_refines_spec needed.)
 //
 // Stream (generated on the fly, never held in memory): WBITS = 24; one last meta-block, MLEN = nA;
 // one block type per category; literal code = the one symbol 'x' (zero bits); insert-and-copy code
